@@ -27,11 +27,11 @@ def term_syms(t, out=None):
     return out
 
 
-def haversine_refs():
-    """accepted normal forms of the great-circle distance (km) between (lat1,lon1)=receiver and (lat2,lon2)=candidate"""
+def haversine_refs(p1=("receiver_lat", "receiver_lon"), p2=("cpr_lat", "cpr_lon")):
+    """accepted normal forms of the great-circle distance (km) between (lat1,lon1)=p1 (receiver) and (lat2,lon2)=p2 (candidate)"""
     S, C, M, A, Sb, D, call = T.S, T.C, T.M, T.A, T.Sb, T.D, T.call
-    la1, lo1, la2, lo2 = (call("to_radians", S("receiver_lat")), call("to_radians", S("receiver_lon")),
-                          call("to_radians", S("cpr_lat")), call("to_radians", S("cpr_lon")))
+    la1, lo1, la2, lo2 = (call("to_radians", S(p1[0])), call("to_radians", S(p1[1])),
+                          call("to_radians", S(p2[0])), call("to_radians", S(p2[1])))
     sl = call("sin", D(Sb(la2, la1), C(2)))
     so = call("sin", D(Sb(lo2, lo1), C(2)))
     a = A(M(sl, sl), M(M(call("cos", la1), call("cos", la2)), M(so, so)))
@@ -47,7 +47,9 @@ def analyse(rep, prog, oks):
     reps = tracker.representative_paths(oks)
     labels = [l for l in reps if l.startswith(("DF::ADSB/ME::AirbornePosition", "DF::TisB/ME::AirbornePosition")) and l.endswith("Option::Some")]
     href = haversine_refs()
-    n_gp = n_false = n_pub = 0
+    prev = ("existing:position.latitude", "existing:position.longitude")
+    jref = haversine_refs(prev, ("cpr_lat", "cpr_lon")) + haversine_refs(("cpr_lat", "cpr_lon"), prev)
+    n_gp = n_false = n_pub = n_jump = 0
     seen_parity = set()
     range_reject = jump_reject = False
     for label in sorted(labels):
@@ -102,6 +104,10 @@ def analyse(rep, prog, oks):
                         range_reject = True
                     if last.get("b_const") == 100.0:
                         jump_reject = True
+                        n_jump += 1
+                        if T.nf(last.get("a_term")) not in jref:
+                            rep.violation("R2", "reject:jump-distance-formula", "%s: the 100 km test does not measure the great-circle distance between the previously published position and the candidate: %s"
+                                          % (label.split("/")[0], T.show(T.nf(last.get("a_term")), 500)))
             elif rv == 1 and gps:
                 pos = coords.fields[cn.index("position")] if "position" in cn else None
                 kd = coords.fields[cn.index("kilo_distance")] if "kilo_distance" in cn else None
@@ -137,6 +143,7 @@ def analyse(rep, prog, oks):
     rep.floor("pairing call sites explored", 8, n_gp)
     rep.floor("rejecting paths", 4, n_false)
     rep.floor("publishing paths", 4, n_pub)
+    rep.floor("jump-rejecting paths", 4, n_jump)
     c = prog.consts.get("rsadsb_common::MAX_AIRCRAFT_DISTANCE")
     if c is None or c["value"].get("bits") != "0x4059000000000000":
         rep.violation("R2", "const:MAX_AIRCRAFT_DISTANCE", "the jump threshold constant is not 100.0 km: %r" % (c["value"] if c else None))
